@@ -174,4 +174,74 @@ theorem convert_convert (cvD cvI bkD bkI : Nat → Nat) (c : Container)
     · exact map_map_id (·.map cvD) (·.map bkD) els (fun a ha => map_map_id cvD bkD a (h2 a ha))
     · exact map_map_id (·.map cvI) (·.map bkI) ixs (fun a ha => map_map_id cvI bkI a (h3 a ha))
 
+/-! ### several records in one stream -/
+
+/-- the first word of an image is its own length (what the stream reader peeks) -/
+theorem size_word (t : Tag) (sDT sIT : Nat) (c : Container)
+    (hD : sDT = 4 ∨ sDT = 8 ∨ sDT = 16) (hI : sIT = 4 ∨ sIT = 8) (hwf : WF t sDT sIT c)
+    (b : Bytes) (hs : serialize t sDT sIT c = some b) : leNat (b.take 8) = b.length ∧ 8 ≤ b.length := by
+  obtain ⟨z1, z2, z3, hser, _, _, _⟩ := serialize_closed t sDT sIT c hD hI
+  obtain ⟨b', hb', hlen, _⟩ := length_serialize t sDT sIT c hD hI
+  rw [hs] at hb'
+  injection hb' with hb'
+  subst hb'
+  have hu : u64Words t sDT sIT c = (rawSize sDT sIT c + 16) ::
+      ([t.magic, t.hashDT, t.hashIT, c.elements.length, c.indices.length, c.elements.length, c.indices.length,
+        c.scalarIndex.length, c.scalarDt.length, compressOff] ++ sizes c.elements
+        ++ (sizes c.elements).map (· * sDT) ++ sizes c.indices ++ (sizes c.indices).map (· * sIT) ++ c.scalarIndex) := rfl
+  have hw : rawSize sDT sIT c + 16 < 256 ^ 8 := hwf.1 _ (by rw [hu]; exact List.mem_cons_self)
+  rw [hser] at hs
+  injection hs with hb
+  have htake : b.take 8 = leBytes 8 (rawSize sDT sIT c + 16) := by
+    rw [← hb, hu]
+    simp only [wordsBytes, List.append_assoc]
+    exact List.take_left' (length_leBytes 8 _)
+  refine ⟨?_, by omega⟩
+  rw [htake, leNat_leBytes 8 _ hw, hlen]
+
+/-- reading one record that sits at `pos = |pre|` in a larger stream: the container comes back and the stream
+    is positioned exactly behind the record -/
+theorem readFrom_at (t : Tag) (sDT sIT : Nat) (c : Container)
+    (hD : sDT = 4 ∨ sDT = 8 ∨ sDT = 16) (hI : sIT = 4 ∨ sIT = 8) (hwf : WF t sDT sIT c)
+    (b : Bytes) (hs : serialize t sDT sIT c = some b) (pre post : Bytes) :
+    readFrom t.magic sDT sIT (pre ++ b ++ post) pre.length = some (c, pre.length + b.length) := by
+  obtain ⟨hsz, h8⟩ := size_word t sDT sIT c hD hI hwf b hs
+  have hdrop : (pre ++ b ++ post).drop pre.length = b ++ post := by
+    rw [List.append_assoc]
+    exact List.drop_left' rfl
+  have ht8 : (b ++ post).take 8 = b.take 8 := by
+    rw [List.take_append, show 8 - b.length = 0 by omega]
+    simp
+  have htb : (b ++ post).take b.length = b := List.take_left' rfl
+  have hd := deserialize_serialize t sDT sIT c hD hI hwf b hs
+  have hc : pre.length + b.length ≤ (pre ++ b ++ post).length ∧ pre.length + 8 ≤ (pre ++ b ++ post).length := by
+    simp only [List.length_append]
+    omega
+  simp only [readFrom, hdrop, ht8, hsz, htb, hd, hc, and_self, if_true]
+
+/-- **several containers in one stream**: reading `k` times from the concatenation of `k` images (behind any
+    prefix `pre`, e.g. junk or earlier records, and in front of any suffix) returns the containers in order and
+    leaves the stream exactly behind the last record -/
+theorem readAll_writeAll (sDT sIT : Nat) (hD : sDT = 4 ∨ sDT = 8 ∨ sDT = 16) (hI : sIT = 4 ∨ sIT = 8) :
+    ∀ (objs : List (Tag × Container)) (pre post : Bytes), (∀ o ∈ objs, WF o.1 sDT sIT o.2) →
+      readAll sDT sIT (pre ++ writeAll sDT sIT objs ++ post) (objs.map (·.1.magic)) pre.length
+        = some (objs.map (·.2), pre.length + (writeAll sDT sIT objs).length)
+  | [], pre, post, _ => by simp [readAll, writeAll]
+  | (t, c) :: rest, pre, post, hwf => by
+    obtain ⟨b, hb, _, _⟩ := length_serialize t sDT sIT c hD hI
+    have hwc : WF t sDT sIT c := hwf (t, c) (by simp)
+    have h1 := readFrom_at t sDT sIT c hD hI hwc b hb pre (writeAll sDT sIT rest ++ post)
+    have ih := readAll_writeAll sDT sIT hD hI rest (pre ++ b) post (fun o ho => hwf o (by simp [ho]))
+    have hbuf : pre ++ writeAll sDT sIT ((t, c) :: rest) ++ post = pre ++ b ++ (writeAll sDT sIT rest ++ post) := by
+      simp [writeAll, hb, List.append_assoc]
+    have hbuf2 : pre ++ b ++ writeAll sDT sIT rest ++ post = pre ++ b ++ (writeAll sDT sIT rest ++ post) := by
+      simp [List.append_assoc]
+    have hl : (pre ++ b).length = pre.length + b.length := by simp
+    rw [hbuf2, hl] at ih
+    simp only [List.map_cons, readAll]
+    rw [hbuf, h1]
+    simp only []
+    rw [ih]
+    simp [writeAll, hb, Nat.add_assoc]
+
 end FeatModel.Ser
